@@ -25,7 +25,9 @@ MANIFEST = {
             "tree_of is injective, empty aggregates survive; scan_skip is the finditer skip-counter lemma.  The Gallina scanner/builder is tied to "
             "Parser.py by evaluating it (vm_compute) on the same texts as the implementation: small documents x rendering choices, large random "
             "documents, every string up to a length bound over the token alphabet and token sequences (scanner groups compared with re), and an "
-            "independent reference reader written from the wire syntax is compared with the library's tree on every rendering.",
+            "independent reference reader written from the wire syntax is compared with the library's tree on every rendering. file_parse_faithful_v1/_v2 carry "
+            "the theorem to the BYTES of a file (any tolerated header, the declared codec: composition with C05's parse_header_exact), and the front-door "
+            "stream reads such files with OFXTree.parse and compares with TreeBuilder on the body.",
     "note": "Trusted: Coq kernel + vm_compute; the hand transcription Model/Sgml.v of regex+feed+C TreeBuilder (validated by correspondence only, "
             "incl. exhaustive short strings against re.finditer); the whitespace table regenerated from the interpreter. parse_render_faithful holds for every "
             "configuration with the repaired regex (fix e7395eb), whatever the builder; obligation source_is_repaired_variant ties /repo's regex to that variant.",
